@@ -64,6 +64,11 @@ CHECKS = {
          "TLC generates every case of the rational rotation family (entries -2..2 quick, -3..3 thorough) with thin, obtuse and four-point reference sets and translations up to 1e5 A, checks that the contract's matrices are proper rotations, and judges N x the real result against the exact integer image, which also decides mirror images and equivariance; every dihedral of every residue type is driven through angle sequences with differences beyond +-180 degrees and judged on the re-measured torsion (0.05 deg), unchanged distances to the axis atoms and unmoved other atoms.",
          "Rotations are a dense rational subset of SO(3), not all of it; collinear references excluded; re-measurement is numpy code in the harness; Jacobi convergence on ill-conditioned inputs not decided.",
          "DESIGN.md 6/C15", ["Rigid", "MC_Rigid", "RigidTrace"]),
+ "C16": ("model_checking",
+         "TLA+ spec Peoe (antisymmetric pairwise transfer + per-cycle share of the formal charge): TLC exhaustive conservation over all bond graphs/shares/transfers in the bound; real assign_parameters traced cycle by cycle on stored and generated molecules; TLC trace validation (PeoeTrace) of component sums, radii, metamorphic pairs and of protein-ligand complexes run end to end",
+         "TLC proves ComponentSumInvariant on the abstract transfer model (and finds the violation when unbonded atoms are skipped); the charges after every real PEOE cycle (recorded with a local trace function) and the final charges must carry, per connected component, exactly the share of the formal charge; radii must equal the RADII-table lookup; renamed and permuted copies must give the same charges per symmetry class; in generated complexes every ligand atom must be written once with the ligand's parameters and no other hetero atom may change relative to the run without --ligand.",
+         "Stored molecules plus four variants each (quick: the small ones and 1HPX); six complex layouts on one peptide with the acetate ligand; conservation is judged against pdb2pqr's own formal_charge; MOL2 writer and PQR parsing are harness code.",
+         "DESIGN.md 6/C16", ["Peoe", "PeoeTrace"]),
 }
 
 NOT_YET = "check not built yet (build round in progress); planned per DESIGN.md section 6"
